@@ -42,6 +42,17 @@ def digest():
     return h.hexdigest()
 
 
+def seed_global(s):
+    """Puts the global generator in an arbitrary reachable state: seeded, a few values consumed and - for odd
+    s - a Gaussian value pending in the Box-Muller cache (part of the state save/restore code must keep)."""
+    s = int(s) % (2 ** 31)
+    np.random.seed(s)
+    if s % 3 == 0:
+        np.random.random(s % 5 + 1)
+    if s % 2:
+        np.random.normal()
+
+
 def _snap_state(self):
     return digest()
 
@@ -195,14 +206,15 @@ def _history(spec, ctx):
     G = int(rng.integers(1 << 30))
 
     def run(models_, only=None, do_models=True):
-        np.random.seed(G)
+        seed_global(G)
         for i, m in enumerate(models_):
             if only is None or i == only:
                 m.set_random_state(_seed_obj(spec['seed_kinds'][i], seeds[i]))
         outs = []
         for op in ops:
             if op[0] == 'global':
-                outs.append(('global', np.random.random(op[1]).tobytes()))
+                # an odd number of normal draws leaves a value pending in the generator's Gaussian cache
+                outs.append(('global', (np.random.normal(size=op[1]) if op[1] % 2 else np.random.random(op[1])).tobytes()))
             elif op[0] == 'sample':
                 if do_models and (only is None or op[1] == only):
                     ok, o = ctx.call(samplers_[op[1]], models_[op[1]], op[2])
@@ -253,10 +265,10 @@ def _unseeded(spec, ctx):
         return
     m, sampler = res
     s = int(rng.integers(1 << 30))
-    np.random.seed(s)
+    seed_global(s)
     ok1, a = ctx.call(sampler, m, 5)
     after = digest()
-    np.random.seed(s)
+    seed_global(s)
     before = digest()
     ok2, b = ctx.call(sampler, m, 5)
     if not (ok1 and ok2):
@@ -318,7 +330,7 @@ def _raises(spec, ctx):
     fam = str(rng.choice(biv.FAMILIES))
     m = biv.make_model(fam, 2.0, random_state=int(rng.integers(1 << 30)))
     m.tau = 5.0
-    np.random.seed(int(rng.integers(1 << 30)))
+    seed_global(rng.integers(1 << 30))
     before = digest()
     ok, e = ctx.call(m.sample, 3)
     ctx.check(not ok, 'raises.invalid-tau', 'C15:invalid-tau-sample-did-not-raise', {'family': fam})
@@ -340,7 +352,7 @@ def _raises(spec, ctx):
              [lambda: GaussianMultivariate(random_state=7)] + [lambda v=v: VineCopula(v, random_state=7) for v in ('center', 'direct', 'regular')]
     for mk in makers:
         mdl = mk()
-        np.random.seed(int(rng.integers(1 << 30)))
+        seed_global(rng.integers(1 << 30))
         before = digest()
         okm, e = ctx.call(mdl.sample, 3)
         ctx.check(digest() == before, 'global-state-unchanged', 'C15:seeded-sample-changed-global-state:on-raise',
@@ -356,7 +368,7 @@ def _datasets(spec, ctx):
     for name in fns:
         fn = getattr(datasets, name)
         where = {'dataset': name, 'size': size, 'seed': s}
-        np.random.seed(spec['seed'] % (2 ** 31))
+        seed_global(spec['seed'] + len(name))
         before = digest()
         ok, a = ctx.call(fn, size, s)
         if not ok:
